@@ -397,6 +397,34 @@ func c11Duration(c *core.C) {
 		c.Count("outcome:"+sentinelName(o.Err), 1)
 		quiesce(60 * time.Second)
 	}
+	// third program: every fact matches every atom and an expression rejects every combination,
+	// so the enumerator never sends a result and never meets a fact that does not match: the
+	// deadline has to be noticed by the enumeration loop itself. Measured in logical steps (hook
+	// combine.step), not in time: a run that reports the timeout only after it has examined ALL
+	// 150^3 combinations did not stop at the deadline.
+	facts3 := factsP(150)
+	rules3 := []ast.Rule{{Head: ast.P("none", vX), Body: []ast.Pred{ast.P("p", vX), ast.P("p", vY), ast.P("p", vZ)}, Exprs: []ast.Expr{{ast.OV(vZ), ast.OV(ast.Int(0)), ast.OB(int(ast.BLessThan))}}}}
+	for _, d := range []time.Duration{time.Millisecond, 10 * time.Millisecond} {
+		c.Eval(1)
+		before := datalog.VerifCounters()["combine.step"]
+		o := runWorld(facts3, rules3, datalog.WithMaxFacts(1000000000), datalog.WithMaxIterations(1000000000), datalog.WithMaxDuration(d))
+		quiesce(60 * time.Second)
+		steps := datalog.VerifCounters()["combine.step"] - before
+		total := int64(150 * 150 * 150)
+		desc := map[string]any{"program": "none($x) <- p($x), p($y), p($z), $z < 0 over 150 facts", "maxDuration": d.String(), "elapsed": o.Elapsed.String(), "result": sentinelName(o.Err), "combinations_examined": steps, "combinations_total": total}
+		switch {
+		case o.Panic != nil:
+			c.Violate("run-panic/"+o.Panic.Site, o.Panic.Msg, desc)
+		case o.Err == nil:
+			c.Inconc("the 3375000-combination join finished within the deadline")
+		case !errors.Is(o.Err, datalog.ErrWorldRunLimitTimeout):
+			c.Violate("deadline-not-reported", fmt.Sprintf("returned %s", sentinelName(o.Err)), desc)
+		case steps >= total:
+			c.Violate("deadline-not-observed-while-enumerating", fmt.Sprintf("maxDuration=%v: the timeout was reported, but only after all %d combinations had been examined (%v)", d, total, o.Elapsed), desc)
+		}
+		c.NT("duration-rejecting/" + d.String() + "/" + sentinelName(o.Err))
+		c.Count("rejecting_join_runs", 1)
+	}
 	c.Sample(map[string]any{"kind": "duration limit", "programs": []string{"done(1) <- p($x), p($y), p($z) over 70 facts", "late($x) <- p($x), p($y), p($z), last($x) over 90 facts (answer only at the end)"}, "deadlines": "0, 1ms, 5ms, 20ms, 25ms"})
 }
 
@@ -407,6 +435,8 @@ func c11EntryPoints(c *core.C) {
 	need150 := []ast.Block{{Facts: f150, Rules: r150, Checks: []ast.Check{{Queries: []ast.Rule{{Head: ast.P("query"), Body: []ast.Pred{ast.P("step150")}}}}}}}
 	need150block := []ast.Block{{Facts: f150}, {Rules: r150, Checks: []ast.Check{{Queries: []ast.Rule{{Head: ast.P("query"), Body: []ast.Pred{ast.P("step150")}}}}}}}
 	ten := []ast.Block{{Facts: factsP(10)}}
+	// the limit is crossed only by the facts of a later block that has no rule of its own
+	blockTen := []ast.Block{{Facts: []ast.Pred{ast.P("a", ast.Int(1)), ast.P("a", ast.Int(2))}}, {Facts: factsP(10), Checks: []ast.Check{{Queries: []ast.Rule{{Head: ast.P("query"), Body: []ast.Pred{ast.P("p", vX)}}}}}}}
 	big := biscuit.WithWorldOptions(datalog.WithMaxIterations(10000), datalog.WithMaxFacts(100000), datalog.WithMaxDuration(60*time.Second))
 	small := biscuit.WithWorldOptions(datalog.WithMaxFacts(3), datalog.WithMaxIterations(10000), datalog.WithMaxDuration(60*time.Second))
 	type entry struct {
@@ -427,7 +457,7 @@ func c11EntryPoints(c *core.C) {
 			return t.B.Authorizer(t.Pub, o)
 		}},
 	}
-	toks := map[string]*lib.Token{"authority-150-rounds": c11Token(c, "c11-ep-a", need150), "block-150-rounds": c11Token(c, "c11-ep-b", need150block), "ten-facts": c11Token(c, "c11-ep-c", ten)}
+	toks := map[string]*lib.Token{"authority-150-rounds": c11Token(c, "c11-ep-a", need150), "block-150-rounds": c11Token(c, "c11-ep-b", need150block), "ten-facts": c11Token(c, "c11-ep-c", ten), "block-ten-facts": c11Token(c, "c11-ep-d", blockTen)}
 	for _, t := range toks {
 		if t == nil {
 			return
@@ -447,6 +477,9 @@ func c11EntryPoints(c *core.C) {
 				opt := big
 				if tn == "ten-facts" {
 					opt = small
+				}
+				if tn == "block-ten-facts" {
+					opt = biscuit.WithWorldOptions(datalog.WithMaxFacts(8), datalog.WithMaxIterations(10000), datalog.WithMaxDuration(60*time.Second))
 				}
 				var cls lib.Class
 				var qerr error
@@ -505,6 +538,12 @@ func c11EntryPoints(c *core.C) {
 					continue
 				}
 				for how, lc := range later {
+					if tn == "block-ten-facts" {
+						if lc != lib.LIMIT {
+							c.Violate("fact-limit-not-enforced-in-block/"+e.name+"/after-"+how, fmt.Sprintf("%s, then %s: Authorize returned %s, expected the fact-limit sentinel", e.name, how, lc), desc)
+						}
+						continue
+					}
 					if tn == "ten-facts" && lc != lib.LIMIT {
 						c.Violate("options-lost-after-"+how+"/"+e.name, fmt.Sprintf("%s with WithMaxFacts(3) on a 10-fact token, then %s: Authorize returned %s, expected the fact-limit sentinel", e.name, how, lc), desc)
 					}
@@ -513,7 +552,11 @@ func c11EntryPoints(c *core.C) {
 					}
 					c.NT(fmt.Sprintf("entry-later/%s/%s/%s/%s", e.name, tn, how, lc))
 				}
-				if tn == "ten-facts" {
+				if tn == "block-ten-facts" {
+					if cls != lib.LIMIT {
+						c.Violate("fact-limit-not-enforced-in-block/"+e.name, fmt.Sprintf("%s with WithMaxFacts(8): 2 authority facts + a later block with 10 facts and no rule: Authorize returned %s, expected the fact-limit sentinel", e.name, cls), desc)
+					}
+				} else if tn == "ten-facts" {
 					if cls != lib.LIMIT {
 						c.Violate("options-ignored/"+e.name, fmt.Sprintf("%s with WithMaxFacts(3) on a 10-fact token: Authorize returned %s, expected a limit sentinel", e.name, cls), desc)
 					}
